@@ -1,4 +1,6 @@
 import BoltonsVerif.C03.Proofs
+import BoltonsVerif.C03.Micro
+import BoltonsVerif.C03.Readers
 import BoltonsVerif.Generated.C03_CacheLocks
 import BoltonsVerif.C02.Proofs
 /-
@@ -101,22 +103,71 @@ theorem no_deadlock (sys : Sys S Op Out) (s0 : S) (progs : List (List Op))
       have : ¬ (d0 + 1 ≤ 1) := by omega
       simp [hown0, release, this]
 
-/-! The tie to the source: the translator regenerates `Generated.C03.methods`
-    (class, method, touches cache state?, whole body under the lock?) from the AST
-    of `LRI`/`LRU` on every run. -/
+/-! The tie to the source: the translator regenerates `Generated.C03.methods` from the AST of
+    `LRI`/`LRU` on every run (class, method, touches private state?, every such reference inside a lock
+    region?, has a lock region?, how the lock is taken, number of cache operations invoked outside
+    every lock region).  A lock region is recognised in any of its equivalent spellings:
+    `with self._lock:`, `self._lock.acquire(); try: … finally: self._lock.release()`, a locking decorator,
+    or a call of a private helper that is itself wholly locked. -/
 
-/-- every public LRI/LRU method that touches ring/dict/lookup-table state runs under the lock -/
+/-- every public LRI/LRU method that touches ring/dict/lookup-table state does so only inside a lock region -/
 theorem all_state_methods_protected :
     ∀ m ∈ Generated.C03.methods, m.touches = true → m.locked = true := by
+  decide
+
+/-- no public method is a *composite* of separately-atomic steps: outside its lock regions a method
+    invokes no cache operation at all, or it consists of exactly one such invocation and nothing else
+    that touches state (`__ne__` = one `self == other`; `__repr__` = one C-level `dict.__repr__`).
+    A check-then-act such as `if key not in self: … ; return self[key]` is rejected here. -/
+theorem public_methods_atomic :
+    ∀ m ∈ Generated.C03.methods,
+      m.outsideOps = 0 ∨ (m.outsideOps = 1 ∧ m.region = false ∧ m.touches = false) := by
+  decide
+
+/-! The same two facts recomputed INSIDE Lean from the raw references the translator emits
+    (`Generated.C03.Method.refs`: what is referenced, is it state / an operation, is it under the lock, is it
+    in a loop), so that the *judgement* "protected / atomic" is Lean's and Python only transcribes the AST. -/
+
+def touchesR (m : Generated.C03.Method) : Bool := m.refs.any (·.touch)
+def lockedR (m : Generated.C03.Method) : Bool :=
+  m.region && !m.irregular && m.refs.all (fun r => !r.touch || r.underLock)
+def outsideOpsR (m : Generated.C03.Method) : Nat :=
+  (m.refs.filter (fun r => r.op && !r.underLock)).foldl (fun n r => n + (if r.inLoop then 2 else 1)) 0
+
+theorem lock_discipline_from_refs :
+    ∀ m ∈ Generated.C03.methods,
+      (touchesR m = true → lockedR m = true) ∧
+      (outsideOpsR m = 0 ∨ (outsideOpsR m = 1 ∧ m.region = false ∧ touchesR m = false)) := by
+  decide
+
+/-- the summary columns used above are what Lean computes from the references -/
+theorem lock_table_summary_consistent :
+    ∀ m ∈ Generated.C03.methods,
+      m.touches = touchesR m ∧ m.locked = lockedR m ∧ m.outsideOps = outsideOpsR m := by
   decide
 
 /-- every dict mutator is overridden by LRI (an inherited C-level mutator would bypass ring and lock) -/
 theorem no_inherited_mutators : Generated.C03.inheritedMutators = [] := by
   decide
 
+/-- ONE lock per cache for its whole life: `self._lock` is assigned in the constructor only (a lock
+    re-created by `clear()` / `_init_ll()` would let a second thread in while the first still holds the
+    old one), and it is the re-entrant kind (`__getitem__ → on_miss → self[key] = …` re-acquires). -/
+theorem lock_created_once_reentrant :
+    Generated.C03.lockAssignedIn ≠ [] ∧
+    (∀ f ∈ Generated.C03.lockAssignedIn, f ∈ ["LRI.__init__", "LRU.__init__", "LRI.__new__", "LRU.__new__"]) ∧
+    (∀ c ∈ Generated.C03.lockCtors, c = "RLock") := by
+  decide
+
+/-- the private ring / table helpers (which take no lock themselves) are never referenced outside a
+    lock region by a public or self-locking method -/
+theorem helpers_only_under_lock : Generated.C03.helperReachedUnlocked = [] := by
+  decide
+
 /-- the table is not empty and does contain state-touching methods (non-vacuity) -/
 theorem lock_table_nonvacuous :
-    6 ≤ (Generated.C03.methods.filter (fun m => m.touches)).length := by
+    6 ≤ (Generated.C03.methods.filter (fun m => m.touches)).length ∧
+    4 ≤ Generated.C03.helpersNeedingLock.length := by
   decide
 
 /-! ### The LRI/LRU instance
@@ -173,7 +224,59 @@ theorem cache_quiescent_state (body : C02.Op K V → Prog (C02.Cache K V) (Cache
     rw [hsh, heq]; exact run_inv _ (C02.Inv.init lru max om hmax) _
   exact ⟨log, hprog, by rw [hsh, heq], hinv, hinv.cap⟩
 
+/-- the same for the concrete three-write decomposition of `__setitem__` (`C03.microBody`, ring write /
+    dict delete / dict insert as separate micro-steps): no hypothesis about the bodies is left -/
+theorem cache_quiescent_state_micro
+    (lru : Bool) (max : Nat) (hmax : 1 ≤ max) (om : Option (K → V))
+    (progs : List (List (C02.Op K V))) (sch : List Tid) (c : Cfg (C02.Cache K V) (C02.Op K V) (CacheOut K V))
+    (hexec : (Cfg.init (C02.Cache.init lru max om) progs).exec (cacheSys microBody) sch = some c)
+    (hdone : c.complete = true) :
+    ∃ log : List (Tid × C02.Op K V),
+      (∀ i p, progs[i]? = some p → opsOf i log = p) ∧
+      c.shared = C02.run (C02.Cache.init lru max om) (log.map (·.2)) ∧
+      C02.Inv c.shared ∧ c.shared.d.length ≤ c.shared.max :=
+  cache_quiescent_state microBody microBody_meaning microBody_wn lru max hmax om progs sch c hexec hdone
+
 end CacheInstance
+
+/-! ### Lock blocks are well nested by construction
+
+The source takes the lock only in block-structured ways (`with self._lock:` / `acquire(); try … finally
+release()` / a helper doing so; the translator records which — `Generated.C03.methods[·].form`), and a
+nested call of another public method is again such a block.  For programs of that shape the hypothesis
+`hwn` is a theorem (`Structured.wn`), so serializability needs the protection hypothesis only. -/
+
+/-- serializability for structured bodies: no well-nestedness hypothesis -/
+theorem serializable_structured (sys : Sys S Op Out) (s0 : S) (progs : List (List Op))
+    (hprot : ∀ o, sys.protect o = true) (hstr : ∀ o, Structured (sys.body o))
+    (sch : List Tid) (c : Cfg S Op Out)
+    (hexec : (Cfg.init s0 progs).exec sys sch = some c) (hdone : c.complete = true) :
+    ∃ log : List (Tid × Op),
+      (∀ i p, progs[i]? = some p → opsOf i log = p) ∧
+      c.shared = serialState sys s0 log ∧
+      (∀ i t, c.threads[i]? = some t → t.outs = serialOuts sys s0 i log) ∧
+      c.owner = none :=
+  serializable sys s0 progs hprot (fun o => (hstr o).wn) sch c hexec hdone
+
+/-- the lock does not change what a body computes when run alone: `with self._lock: p` means `p` -/
+theorem lock_is_sequentially_transparent {A : Type} (p : Prog S A) (s : S) :
+    runProg (withLock p) s = runProg p s := runProg_withLock p s
+
+/-- a nested re-entrant block inside a block (`get → self[key]`, `__getitem__ → on_miss → self[key] = v`):
+    any nesting depth is well nested -/
+theorem nested_lock_blocks_wn {A : Type} (p : Prog S A) (hp : Structured p) (n : Nat) :
+    WN 0 (Nat.rec p (fun _ q => withLock q) n) := by
+  have : Structured (Nat.rec p (fun _ q => withLock q) n : Prog S A) := by
+    induction n with
+    | zero => exact hp
+    | succ n ih => exact Structured.locked _ ih
+  exact this.wn
+
+/-- non-vacuity: `get` as the source writes it — a lock block whose body calls `self[key]`, itself a lock
+    block around one read — is structured -/
+example (f : S → Out) : Structured (withLock (withLock (.step id fun s => .ret (f s))) : Prog S Out) :=
+  .locked _ (.locked _ (.step _ _ fun s => .ret (f s)))
+
 
 /-! Necessity of the hypothesis: with an UNPROTECTED insert two threads can both
     see "not full" and both insert, exceeding the capacity. -/
@@ -191,6 +294,108 @@ theorem unprotected_breaks :
     ∃ sch : List Tid, ∃ c, (Cfg.init [] [[7], [8]]).exec toyUnprotected sch = some c ∧
       c.complete = true ∧ 1 < c.shared.length :=
   ⟨[0, 0, 1, 1, 0, 1, 0, 1], _, rfl, by decide, by decide⟩
+
+/-! The known finding C03-readers inside the model.  `len` / `in` / iteration are inherited from dict and
+    take no lock.  With the three-write `__setitem__` of `C03.microBody`, an unlocked `len` scheduled between
+    the dict delete of the evicted key and the dict insert of the new one answers 1, although the cache holds
+    2 items before and after the insert: the FULL statement (readers included) is false for the code as it
+    is; `serializable` is the part that holds (locked operations), the harness compares exactly that part. -/
+
+def readerSys : Sys (C02.Cache Nat Nat) (C02.Op Nat Nat) (COut Nat Nat) where
+  body := microBody
+  protect := fun o => match o with
+    | .len => false | .contains _ => false | .items => false
+    | _ => true
+
+/-- LRU(max_size=2) holding keys 1 and 2 -/
+def full2 : C02.Cache Nat Nat := ((C02.Cache.init true 2 none).setitem 1 0).setitem 2 0
+
+def lenOf : COut Nat Nat → Option Nat
+  | .nat n => some n
+  | _ => none
+
+theorem reader_sees_half_done_eviction :
+    ∃ sch : List Tid, ∃ c,
+      (Cfg.init full2 [[C02.Op.setitem 3 1], [C02.Op.len]]).exec readerSys sch = some c ∧
+      c.complete = true ∧
+      (c.threads[1]?.map fun t => t.outs.map lenOf) = some [some 1] ∧
+      -- both sequential orders answer 2
+      lenOf (C02.step full2 .len).2 = some 2 ∧
+      lenOf (C02.step (C02.step full2 (.setitem 3 1)).1 .len).2 = some 2 :=
+  ⟨[0, 0, 0, 1, 1, 1, 0, 0], _, rfl, by decide, by decide, by decide, by decide⟩
+
+/-- and the state that reader saw breaks the C02 invariant (ring has 2 links, dict 1 item): only the lock
+    keeps such states invisible to the other *locked* operations -/
+theorem half_done_state_inconsistent :
+    ∃ c, (Cfg.init full2 [[C02.Op.setitem 3 1]]).exec readerSys [0, 0, 0] = some c ∧
+      c.shared.d.length = 1 ∧ c.shared.ring.length = 2 ∧ c.owner = some (0, 1) :=
+  ⟨_, rfl, by decide, by decide, by decide⟩
+
+/-- What DOES hold with unlocked readers around (the part of the statement the harness compares): for every
+    schedule of any number of threads mixing locked operations with read-only unlocked ones,
+    the final state is the sequential run of all operations in the order they started (readers being
+    identities: the locked operations in lock-acquisition order), program order is respected, every thread
+    that issues only locked operations gets exactly the sequential results, and the lock is free. -/
+theorem serializable_with_readers (sys : Sys S Op Out) (s0 : S) (progs : List (List Op))
+    (hro : ∀ o, sys.protect o = false → RO (sys.body o))
+    (hwn : ∀ o, sys.protect o = true → WN 0 (sys.body o))
+    (sch : List Tid) (c : Cfg S Op Out)
+    (hexec : (Cfg.init s0 progs).exec sys sch = some c) (hdone : c.complete = true) :
+    ∃ log : List (Tid × Op),
+      (∀ i p, progs[i]? = some p → opsOf i log = p) ∧
+      c.shared = serialState sys s0 log ∧
+      (∀ i t, c.threads[i]? = some t → AllProt sys progs i → t.outs = serialOuts sys s0 i log) ∧
+      c.owner = none := by
+  have hinv := inv2_exec sys s0 progs hro hwn _ c sch (inv2_init sys s0 progs) hexec
+  obtain ⟨hlen, hprog, hst⟩ := hinv
+  have hall : ∀ (j : Tid) (t : Thread S Op Out), c.threads[j]? = some t → t.todo = [] ∧ t.cur = none := by
+    intro j t hj
+    have hmem : t ∈ c.threads := List.mem_of_getElem? hj
+    have := List.all_eq_true.mp hdone t hmem
+    simp only [Thread.done, Bool.and_eq_true, List.isEmpty_iff, Option.isNone_iff_eq_none] at this
+    exact this
+  refine ⟨c.log, ?_, ?_⟩
+  · intro i p hp
+    have hi : i < c.threads.length := by
+      rw [hlen]; exact lt_of_getElem?_some hp
+    have ht : c.threads[i]? = some c.threads[i] := List.getElem?_eq_getElem hi
+    have := hprog i _ ht
+    rw [hp, (hall i _ ht).1] at this
+    simp at this
+    exact this.symm
+  · rcases hst with ⟨hown, _, houts, hsh⟩ | ⟨i0, t0, p0, _, _, _, _, ht0, hc0, _⟩
+    · exact ⟨hsh, houts, hown⟩
+    · have := (hall i0 t0 ht0).2
+      rw [hc0] at this; cases this
+
+/-- mutual exclusion survives the readers: two threads that are both inside an operation are never both
+    inside a LOCKED one (at most one thread holds the lock; everybody else in progress is a reader) -/
+theorem mutual_exclusion_with_readers (sys : Sys S Op Out) (s0 : S) (progs : List (List Op))
+    (hro : ∀ o, sys.protect o = false → RO (sys.body o))
+    (hwn : ∀ o, sys.protect o = true → WN 0 (sys.body o))
+    (sch : List Tid) (c : Cfg S Op Out) (hexec : (Cfg.init s0 progs).exec sys sch = some c)
+    (i j : Tid) (ti tj : Thread S Op Out)
+    (hi : c.threads[i]? = some ti) (hj : c.threads[j]? = some tj)
+    (hci : ti.holds = true ∧ ti.cur ≠ none) (hcj : tj.holds = true ∧ tj.cur ≠ none) : i = j := by
+  have hinv := inv2_exec sys s0 progs hro hwn _ c sch (inv2_init sys s0 progs) hexec
+  have key : ∀ (k : Tid) (tk : Thread S Op Out), NotHolder sys progs k tk →
+      ¬ (tk.holds = true ∧ tk.cur ≠ none) := by
+    intro k tk hnh ⟨hh, hc⟩
+    rcases hnh with h | ⟨h, _⟩
+    · exact hc h
+    · rw [h] at hh; cases hh
+  rcases hinv.st with ⟨_, hnh, _, _⟩ | ⟨i0, t0, p0, _, _, _, _, ht0, _, _, _, _, _, _, hoth, _, _⟩
+  · exact absurd hci (key i ti (hnh i ti hi))
+  · have h1 : i = i0 := Classical.byContradiction fun h => key i ti (hoth i ti h hi) hci
+    have h2 : j = i0 := Classical.byContradiction fun h => key j tj (hoth j tj h hj) hcj
+    rw [h1, h2]
+
+/-- non-vacuity: the cache system with unlocked `len` / `in` / iteration and the three-write `__setitem__`
+    satisfies both hypotheses -/
+example : ∀ o, readerSys.protect o = false → RO (readerSys.body o) := by
+  intro o h
+  cases o <;> simp [readerSys] at h <;> simp [readerSys, microBody, atomicBody, RO, C02.step]
+example : ∀ o, readerSys.protect o = true → WN 0 (readerSys.body o) := fun o _ => microBody_wn o
 
 /-- the same programs, protected: the theorem applies (non-vacuity of `serializable`) -/
 example : ∀ o, toyProtected.protect o = true := fun _ => rfl
